@@ -530,6 +530,13 @@ def compare_threads(impl, model):
     return None if impl.get('err') is not None else 'model predicts an error, the threaded run had none'
   if impl.get('err') is not None:
     return f"threaded run raised {impl['err']}"
+  if impl['threads'] == 1:
+    # one worker behind the lock wrapper: the in-process order (Iter.tsNext is transparent: C12_threadsafe_transparent)
+    if impl['out'] != model['out']:
+      return f"num_threads=1: output differs (in order): code {jdump(impl['out'])[:300]} / model {jdump(model['out'])[:300]}"
+    if impl['logs'] != model['logs']:
+      return 'num_threads=1: sink logs differ (in order)'
+    return None
   if _multiset(impl['out']) != _multiset(model['out']):
     return 'output multisets differ'
   if [_multiset(l) for l in impl['logs']] != [_multiset(l) for l in model['logs']]:
@@ -605,6 +612,7 @@ def oracle(case, obs):
   if obs.get('write_after_close'):
     return '[sink] a sink was written after it had been closed'
   threads = case.get('threads')
+  par = bool(threads) and threads > 1        # several workers: order across workers is not promised
   rerr = ref['err']
   if rerr is not None and rerr[0] == 'undefined':
     return None
@@ -619,9 +627,9 @@ def oracle(case, obs):
   if rerr is None:
     if obs['err'] is not None:
       return f"the reference evaluates without error, the pipeline raised {obs['err']} ({obs.get('msg')})"
-    if (threads and _multiset(obs['out']) != _multiset(ref['out'])) or (not threads and obs['out'] != ref['out']):
+    if (par and _multiset(obs['out']) != _multiset(ref['out'])) or (not par and obs['out'] != ref['out']):
       return f"output differs from the reference: {jdump(obs['out'])[:400]} != {jdump(ref['out'])[:400]}"
-    logs_ok = [_multiset(l) for l in obs['logs']] == [_multiset(l) for l in ref['logs']] if threads else obs['logs'] == ref['logs']
+    logs_ok = [_multiset(l) for l in obs['logs']] == [_multiset(l) for l in ref['logs']] if par else obs['logs'] == ref['logs']
     if not logs_ok:
       return f"[sink] sink contents differ from the reference: {jdump(obs['logs'])[:300]} != {jdump(ref['logs'])[:300]}"
     if any(c < 1 for c in obs['closed']) or (not threads and any(c != 1 for c in obs['closed'])):
